@@ -156,7 +156,21 @@ func TestC15(t *testing.T) {
 				return
 			}
 		}
-		free := Diff(oldDir, newDir, comp, DiffSeams{SourceSlice: NewSlicer(2, pair.PoolSeed)})
+		freeSeams := DiffSeams{SourceSlice: NewSlicer(2, pair.PoolSeed)}
+		if nf := len(pair.New.Files()); nf >= 2 && rapid.IntRange(0, 3).Draw(rt, "failedfirst") == 0 {
+			// a first attempt into the same destinations fails between two files (a file of the new
+			// build cannot be opened); once it has returned, nothing more may arrive in them, and the
+			// attempt that follows writes what a diff from scratch writes
+			freeSeams.FailFirstOpenAt = rapid.IntRange(2, nf).Draw(rt, "failopenat")
+		}
+		free := Diff(oldDir, newDir, comp, freeSeams)
+		if free.FirstRan && free.FirstErr != nil {
+			Ev.Fault("diff_failed_between_files_then_retried_into_the_same_writers", 1)
+			if free.LateBytes != 0 {
+				Violation(rt, "C15/write-after-return", "WritePatch failed (%v) and returned; afterwards %d more bytes arrived in the patch and signature writers it had been given (comp %s)", free.FirstErr, free.LateBytes, CompString(comp))
+				return
+			}
+		}
 		if free.Err != nil || free.Panic != "" {
 			Violation(rt, "C15/diff-failed", "free-running WritePatch: %v %s", free.Err, free.Panic)
 			return
@@ -204,6 +218,24 @@ func TestC15(t *testing.T) {
 				}
 				Violation(rt, "C15/optimize-nondeterministic", "optimized patch differs between run 0 and run %d with identical parameters (partitions %d forcemapall %v) (len %d vs %d);%s", run, k.Partitions, k.ForceMapAll, len(refOpt), len(or.Patch), detail)
 				return
+			}
+		}
+		if rapid.IntRange(0, 3).Draw(rt, "optimizefails") == 0 {
+			// an Optimize that fails because a new-build file cannot be opened: once it has returned,
+			// nothing more arrives in the writer it was given
+			kf := k
+			kf.FailSourceOpenAt = rapid.IntRange(1, 3).Draw(rt, "optfailopenat")
+			fr := Optimize(refPatch, oldDir, newDir, kf, nil, nil)
+			if fr.Panic != "" {
+				Violation(rt, "C15/optimize-failed", "Optimize with a source file that cannot be opened panicked: %s", fr.Panic)
+				return
+			}
+			if fr.Err != nil {
+				Ev.Fault("optimize_failed_on_a_source_file", 1)
+				if fr.LateBytes != 0 {
+					Violation(rt, "C15/write-after-return", "Optimize failed (%v) and returned; afterwards %d more bytes arrived in the patch writer it had been given (output compression %v)", fr.Err, fr.LateBytes, k.Compression)
+					return
+				}
 			}
 		}
 		distinctLogs := map[uint64]bool{}
